@@ -575,60 +575,35 @@ func getGitHead(repoDir string) string {
 	return head
 }
 
-// writeResultEvent attaches a result file reference to a task.
-// The file must exist and be within the project root.
-func writeResultEvent(dir string, opts GlobalOptions, taskID, summary, relPath string, view ...*committedView) error {
-	lockPath := filepath.Join(dir, "lock")
-	eventsPath := getEventsPath(dir)
+// buildResultEvent validates a result attachment (summary, path confinement, regular file) and captures
+// its evidence. The caller holds the store lock, has checked that taskID is a live task, and appends the
+// returned event together with the other events of the same command.
+func buildResultEvent(dir string, taskID, summary, relPath string) (Event, error) {
 	repoDir := filepath.Dir(dir)
+	if err := validateResultSummary(summary); err != nil {
+		return Event{}, err
+	}
 
-	return withLock(lockPath, syscall.LOCK_EX, func() error {
-		graph, err := loadGraph(dir)
-		if err != nil {
-			return err
-		}
-		if _, ok := graph.Tombstones[taskID]; ok {
-			return prunedErr(taskID)
-		}
-		task, ok := graph.Tasks[taskID]
-		if !ok {
-			return fmt.Errorf("unknown task id %s", taskID)
-		}
-		if isEpic(task) {
-			return errors.New("cannot attach result to epic")
-		}
-		if err := validateResultSummary(summary); err != nil {
-			return err
-		}
+	// Validate and normalize path
+	cleanPath, err := validateResultPath(repoDir, relPath)
+	if err != nil {
+		return Event{}, err
+	}
 
-		// Validate and normalize path
-		cleanPath, err := validateResultPath(repoDir, relPath)
-		if err != nil {
-			return err
-		}
+	// Capture evidence
+	evidence, err := captureResultEvidence(repoDir, cleanPath)
+	if err != nil {
+		return Event{}, err
+	}
 
-		// Capture evidence
-		evidence, err := captureResultEvidence(repoDir, cleanPath)
-		if err != nil {
-			return err
-		}
-
-		now := time.Now().UTC()
-		event, err := newEvent("result", now, ResultEvent{
-			TaskID:            taskID,
-			Summary:           strings.TrimSpace(summary),
-			Path:              cleanPath,
-			Sha256AtAttach:    evidence.Sha256AtAttach,
-			MtimeAtAttach:     evidence.MtimeAtAttach,
-			GitCommitAtAttach: evidence.GitCommitAtAttach,
-			TS:                formatTime(now),
-		})
-		if err != nil {
-			return err
-		}
-		if err := appendEvents(eventsPath, []Event{event}); err != nil {
-			return err
-		}
-		return captureCommitted(dir, view)
+	now := time.Now().UTC()
+	return newEvent("result", now, ResultEvent{
+		TaskID:            taskID,
+		Summary:           strings.TrimSpace(summary),
+		Path:              cleanPath,
+		Sha256AtAttach:    evidence.Sha256AtAttach,
+		MtimeAtAttach:     evidence.MtimeAtAttach,
+		GitCommitAtAttach: evidence.GitCommitAtAttach,
+		TS:                formatTime(now),
 	})
 }
